@@ -21,11 +21,23 @@ Check (C09_tx_exactly_once_when_emit_ok : forall ev s0 ops s rs,
 Check (C09_interface_emit : forall ev p st na res st' na' res' c,
   if_respond ev p (st, na, res) = Ok ((st', na', res'), c) ->
   (c = EMIT_OK ->
-     (pkt_total_len p <= if_mtu st /\ if_out st' = if_out st ++ [FO_Pkt p]) \/
+     (pkt_total_len p <= if_mtu st /\ if_out st' = if_out st ++ [FO_Pkt p] /\ if_frag st' = if_frag st) \/
+     (pkt_total_len p > if_mtu st /\ a_ver (p_dst p) = 4 /\ pkt_total_len p <= cfg_FRAGMENTATION_BUFFER_SIZE /\
+      if_out st' = if_out st ++ [FO_Frag 0 (if_max_frag st) true] /\
+      if_frag st' = Some (FO_Pkt p, pkt_total_len p, if_max_frag st + wipv4_HEADER_LEN)) \/
      (pkt_total_len p > if_mtu st /\
-      (if_out st' = if_out st \/ if_out st' = if_out st ++ [FO_Pkt p]))) /\
+      (a_ver (p_dst p) <> 4 \/ cfg_FRAGMENTATION_BUFFER_SIZE < pkt_total_len p) /\
+      if_out st' = if_out st /\ if_frag st' = if_frag st)) /\
   (c <> EMIT_OK ->
-     if_out st' = if_out st \/ exists k a, if_out st' = if_out st ++ [FO_Aux k a])).
+     if_frag st' = if_frag st /\
+     (if_out st' = if_out st \/ exists k a, if_out st' = if_out st ++ [FO_Aux k a]))).
+
+Check (C09_fragment_train_completes : forall fuel st f len sent,
+  if_frag st = Some (f, len, sent) -> if_budget st = None -> 0 < if_max_frag st ->
+  sent < len -> (Z.to_nat (len - sent) <= fuel)%nat ->
+  let st' := ipv4_egress_n fuel st in
+  if_frag_finished st' = true /\
+  if_out st' = if_out st ++ frag_train fuel (if_max_frag st) len sent ++ [f]).
 
 Check (C09_rx_exactly_once_whole_or_not_at_all : forall ev s ops s' rs,
   sock_is_new s -> Forall op_args_ok ops -> sock_run ev s ops = Ok (s', rs) ->
